@@ -90,6 +90,9 @@ func (t *Trace) Out(format string, a ...interface{}) {
 	for _, l := range strings.Split(s, "\n") {
 		fmt.Fprintf(t.w, "> %s\n", l)
 	}
+	if t.FlushOps {
+		t.w.Flush()
+	}
 }
 func (t *Trace) Close() { t.w.Flush(); t.f.Close() }
 
